@@ -43,6 +43,10 @@ import AutosarVerif.Lemmas.DeepCopy
 import AutosarVerif.Lemmas.DeepCopyWitness
 import AutosarVerif.Lemmas.CompatValid
 import AutosarVerif.Lemmas.MoveCopyInv
+import AutosarVerif.Lemmas.Dup
+import AutosarVerif.Lemmas.DupWitness
+import AutosarVerif.Lemmas.DupFaithful
+import AutosarVerif.Lemmas.DupFaithfulWitness
 
 namespace AV.C13
 open AV.W
@@ -146,5 +150,57 @@ theorem C13_witness_alien_type_copy_not_valid : type_of% @AV.W.CompatValidWitnes
 /-- a guarded copy (named source, content permitted in the destination version) keeps the full invariant of the world: in particular every copied identifiable and reference is findable, the source is untouched, ids stay unique
 `theorem opCopy_ginv (hH : IdxHyp S V vOk) (hR : RefWF S) (hv32 : vOk &&& 0xFFFFFFFF = vOk) (w : World) (p x : Nat) (pos? : Option Nat) (hg : GInv S vOk w) (hgd : CopyGuard S V w p x) : GInv S vOk (opCopy S V w p x pos?).1` -/
 theorem C13_guarded_copy_keeps_all_invariants : type_of% @AV.W.opCopy_ginv := @AV.W.opCopy_ginv
+
+
+/-! ### added at the end of the third session (proof pack DU): restated by name
+(`type_of%` keeps the statement identical to the lemma; the signature is quoted in the comment) -/
+
+/-- **`duplicate()` (Model/Dup.lean `opDup`, what the driver runs for `dup`) is independent of the original**: every model that existed before - in particular the original - and the list of removed elements are unchanged, whatever the answer; needs that the next element id is not in use (an invariant of all histories, `fresh_of_winv`; FALSE otherwise: `C13_witness_duplicate_needs_fresh_ids`)
+`theorem opDup_frame (w : World) (k : Nat) (hfresh : ∀ m ∈ w.models, w.nextId ∉ m.rootItems.ids) : (opDup S V rootAttrs w k).1.models.take w.models.length = w.models ∧ (opDup S V rootAttrs w k).1.dead = w.dead ∧ (opDup S V rootAttrs w k).1.models.length ≤ w.models.length + 1` -/
+theorem C13_duplicate_leaves_every_existing_model_unchanged : type_of% @AV.W.opDup_frame := @AV.W.opDup_frame
+
+/-- `theorem fresh_of_winv (vOk : Nat) (w : World) (hw : WInv S vOk w) (h0 : ∀ m ∈ w.models, m.rootIssued = false → m.rootHdr.id = 0) (hpos : 0 < w.nextId) : ∀ m ∈ w.models, w.nextId ∉ m.rootItems.ids` -/
+theorem C13_next_id_is_fresh_in_reachable_states : type_of% @AV.W.fresh_of_winv := @AV.W.fresh_of_winv
+
+/-- the positional transfer of file sets changes nothing but `files` fields (shape, texts, ids, names, types, attributes, parents, comments kept)
+`theorem assignFiles_noFiles (its : Items) (fs : List (List Nat)) : (assignFiles its fs).1.mapHdrs Hdr.noFiles = its.mapHdrs Hdr.noFiles` -/
+theorem C13_file_set_transfer_is_a_pure_relabelling : type_of% @AV.W.assignFiles_noFiles := @AV.W.assignFiles_noFiles
+
+/-- the i-th element in document order gets the i-th set of the list, elements beyond the list keep theirs
+`theorem assignFiles_getElem? (its : Items) (fs : List (List Nat)) (i : Nat) : (assignFiles its fs).1.hdrs[i]? = its.hdrs[i]?.map fun h => match fs[i]? with | some f => { h with files` -/
+theorem C13_file_set_transfer_is_positional : type_of% @AV.W.assignFiles_getElem? := @AV.W.assignFiles_getElem?
+
+/-- **faithfulness (partial)**: when the tree of the new model has the shape of the original (what same-version copies give, `Lemmas/DeepCopy.lean`), the duplicate equals the original up to identities, every element carrying the image of the file set of ITS source; the derivation of the shape hypothesis from "all files have one version" is not done
+`theorem opDup_in_step (S : Spec) (V : Env) (rootAttrs : List (Nat × CDv)) (w : World) (k : Nat) (m : Model) (hm : w.models[k]? = some m) (hne : m.files.isEmpty = false) (p : String) (hok : (opDup S V rootAttrs w k).2 = .ok p) : ∃ m3, (opDup S V rootAttrs w k).1.models[w.models.length]? = some m3 ∧ (m3.rootItems.shape = m.rootItems.shape → m3.rootItems.mapHdrs Hdr.anon = m.rootItems.mapHdrs (fun h => { h.anon with files` -/
+theorem C13_duplicate_faithful_when_iterations_run_in_step : type_of% @AV.W.opDup_in_step := @AV.W.opDup_in_step
+
+/-- **negation witness = known finding c13:duplicate-of-model-with-files-of-different-versions** on a toy specification: a reachable world with files of versions 1 and 2; `dup` answers ok, the copy has 4 elements instead of 5 (the version-2-only element is dropped) and the copy of e4 carries the image of the file set of e3
+`theorem dup_versions_finding : (opDup dupSpec nameEnv [] dupW 0).2.isOk = true ∧ ((opDup dupSpec nameEnv [] dupW 0).1.models.map fun m => m.rootItems.hdrs.length) = [5, 4] ∧ (dupW.models.map fun m => m.rootItems.hdrs.length) = [5] ∧ -- position 3 of the copy, position 3 and 4 of the original: (id, name, files) ((opDup dupSpec nameEnv [] dupW 0).1.models[1]?.bind fun m => m.rootItems.hdrs[3]?.map fun h => (h.id, h.name, h.files)) = some (8, 101, [2]) ∧ (dupW.models[0]?.bind fun m => m.rootItems.hdrs[3]?.map fun h => (h.id, h.name, h.files)) = some (3, 101, [0]) ∧ (dupW.models[0]?.bind fun m => m.rootItems.hdrs[4]?.map fun h => (h.id, h.name, h.files)) = some (4, 101, [1]) ∧ -- e8 is the third child of the new root, e4 the third child of the original root ((opDup dupSpec nameEnv [] dupW 0).1.models[1]?.map fun m => m.rootKids.childElems.map (·.1.id)) = some [6, 7, 8] ∧ (dupW.models[0]?.map fun m => m.rootKids.childElems.map (·.1.id)) = some [1, 3, 4]` -/
+theorem C13_witness_duplicate_of_mixed_version_model : type_of% @AV.W.dup_versions_finding := @AV.W.dup_versions_finding
+
+/-- `theorem opDup_frame_needs_fresh : (opDup dupSpec nameEnv [] badW 0).2.isOk = true ∧ (badW.models.map fun m => m.rootItems.ids) = [[0, 1]] ∧ ((opDup dupSpec nameEnv [] badW 0).1.models.map fun m => m.rootItems.ids) = [[0, 1, 1], [0]]` -/
+theorem C13_witness_duplicate_needs_fresh_ids : type_of% @AV.W.opDup_frame_needs_fresh := @AV.W.opDup_frame_needs_fresh
+
+
+/-! ### added at the end of the third session (proof pack DU2): restated by name
+(`type_of%` keeps the statement identical to the lemma; the signature is quoted in the comment) -/
+
+/-- **`duplicate()` is faithful** (closes the shape hypothesis of `C13_duplicate_faithful_when_iterations_run_in_step`): in a world with the full invariant, if every sub-element of the root passes the version filter of the LOWEST version of the files unchanged (`AllCompat`; with files of one version: content permitted in that version), the root carries no comment / changed attributes and its sub-elements are in an order in which each copy is appended (`AppendOk`, decidable), then a successful `dup` yields a world with the full invariant `GInv` in which the new model equals the original up to identities, every element carrying the image of the file set of ITS source; no renaming happens (follows from the exact index of the original)
+`theorem opDup_faithful (rootAttrs : List (Nat × CDv)) (hH : IdxHyp S V vOk) (hR : RefWF S) (hv32 : vOk &&& 0xFFFFFFFF = vOk) (w : World) (k : Nat) (m : Model) (hg : GInv S vOk w) (hU : IdsSep w) (hfresh : ∀ m ∈ w.models, w.nextId ∉ m.rootItems.ids) (hm : w.models[k]? = some m) (hne : m.files.isEmpty = false) (hroot : m.rootHdr.name = S.defName S.rootDef ∧ m.rootHdr.attrs = rootAttrs ∧ m.rootHdr.comment = none) (hnotext : m.rootKids.length = m.rootKids.childElems.length) (hnoSn : ∀ c ∈ m.rootKids.childElems, c.1.name ≠ S.nmShortName) (hcompat : ∀ c ∈ m.rootKids.childElems, AllCompat S (dupVer V m.files) c.1 c.2) (happ : AppendOk S m.rootHdr (dupVer V m.files) [] m.rootKids.childElems) (p : String) (hok : (opDup S V rootAttrs w k).2 = .ok p) : GInv S vOk (opDup S V rootAttrs w k).1 ∧ ∃ m3, (opDup S V rootAttrs w k).1.models[w.models.length]? = some m3 ∧ m3.rootItems.shape = m.rootItems.shape ∧ m3.rootItems.mapHdrs Hdr.anon = m.rootItems.mapHdrs (fun h => { h.anon with files` -/
+theorem C13_duplicate_is_faithful_and_keeps_the_invariants : type_of% @AV.W.opDup_faithful := @AV.W.opDup_faithful
+
+/-- `theorem dupVer_one (fs : List File) (v : Nat) (hv : v ≤ V.latest) (hne : fs ≠ []) (h : ∀ f ∈ fs, f.version = v) : dupVer V fs = v` -/
+theorem C13_duplicate_version_with_files_of_one_version : type_of% @AV.W.dupVer_one := @AV.W.dupVer_one
+
+/-- `theorem dupCopies_inv (hH : IdxHyp S V vOk) (hR : RefWF S) (hv32 : vOk &&& 0xFFFFFFFF = vOk) {w : World} {k : Nat} {m : Model} (hgw : GInv S vOk w) (hm : w.models[k]? = some m) (R ver : Nat) (hfresh : ∀ m ∈ w.models, R ∉ m.rootItems.ids) (w2 : World) (cs : List (Hdr × Items)) : ∀ (done : List (Hdr × Items)) (wi : World) (mi : Model), DupSt S vOk w wi mi done → mi.rootHdr.id = R → ver = dupVer V mi.files → m.rootKids = Items.ofList (done ++ cs) → (∀ d ∈ done ++ cs, d.1.name ≠ S.nmShortName) → (∀ c ∈ cs, ∃ cx, locate w c.1.id = some (k, cx) ∧ lastOf cx = c) → (∀ c ∈ cs, AllCompat S ver c.1 c.2) → AppendOk S m.rootHdr ver done cs → dupCopies S V R (cs.map (·.1.id)) wi = .ok w2 → ∃ m2, DupSt S vOk w w2 m2 (done ++ cs) ∧ m2.rootHdr = mi.rootHdr ∧ m2.files = mi.files` -/
+theorem C13_duplicate_copy_phase_normal_form : type_of% @AV.W.dupCopies_inv := @AV.W.dupCopies_inv
+
+/-- non-vacuity: a reachable world (two files of one version, packages in different files, references, index) meets every hypothesis; the conclusion is also checked by evaluation (`dupW1_copy`)
+`theorem dupW1_faithful : GInv mvSpec 6 (opDup mvSpec nameEnv [] dupW1 0).1 ∧ ∃ m3, (opDup mvSpec nameEnv [] dupW1 0).1.models[dupW1.models.length]? = some m3 ∧ m3.rootItems.shape = dupM1.rootItems.shape ∧ m3.rootItems.mapHdrs Hdr.anon = dupM1.rootItems.mapHdrs (fun h => { h.anon with files` -/
+theorem C13_duplicate_faithful_nonvacuous : type_of% @AV.W.dupW1_faithful := @AV.W.dupW1_faithful
+
+/-- the hypothesis on the root element is necessary = known finding c13:duplicate-drops-root-attributes-and-comment as a negation on a reachable world
+`theorem dup_root_comment_not_copied : (opDup mvSpec nameEnv [] dupW1c 0).2.isOk = true ∧ ((opDup mvSpec nameEnv [] dupW1c 0).1.models.map fun m => m.rootHdr.comment) = [some [120], none]` -/
+theorem C13_witness_duplicate_drops_root_comment : type_of% @AV.W.dup_root_comment_not_copied := @AV.W.dup_root_comment_not_copied
 
 end AV.C13
